@@ -9,7 +9,7 @@ or repeats no bit, (iv) in the no-alloc build the only other outcome is Err beyo
 from __future__ import annotations
 from ..domains import IntSet
 from ..spec import itu, lengths
-from .common import flatten, unwrap_message
+from .common import check_derived_impls, flatten, unwrap_message
 
 HDR = {"BinaryAddressedMessage": ("data", 11, 6), "BinaryBroadcastMessage": ("data", 7, 8), "DgnssBroadcastBinaryMessage": ("payload.data", 15, 17)}
 
@@ -73,6 +73,7 @@ def run(ctx, chk):
             if cfg == "none":
                 chk.ob(o.nset().max() - hdr <= 119, "C15/%s/capacity/%s" % (struct, o.nset().max()), "%s [none]: accepted with %r bytes, capacity is 119 data bytes" % (struct, o.nset()))
         chk.ob(seen == {6, 8, 17}, "C15/coverage/%s/%s" % (cfg, sorted(seen)), "binary types reached [%s]: %s" % (cfg, sorted(seen)))
+    check_derived_impls(ctx, chk, "C15", cfgs, lambda short, full: full.startswith("messages::binary_") or full.startswith("messages::dgnss_"), 6, "that the reported payload is byte for byte the transmitted one")
     chk.cov["configs"] = cfgs
     chk.cov["programs"] = len(cfgs)
     chk.cov["partitions"] = n
